@@ -242,6 +242,75 @@ def instances(typ: str, tier: str = "quick") -> Iterator[Instance]:
         raise KeyError(typ)
 
 
+def ground_instances(typ: str, tier: str = "quick") -> Iterator[Tuple[int, Tuple[int, ...], Tuple[Tuple[int, int], ...], str]]:
+    """Larger arities than the box enumeration can afford, ground tuples only (C06): (n, params, axes, 'all' | 'perms')."""
+    th = tier == "thorough"
+    if typ == "and":
+        for n in (4, 5, 6, 7):
+            yield n, (), ((0, 1),) * n, "all"
+    elif typ in ("affine_eq", "affine_geq", "affine_leq"):
+        for coeffs in itertools.product((-1, 0, 2), repeat=4):
+            for rhs in (-1, 0, 3):
+                yield 4, tuple(coeffs) + (rhs,), ((-1, 1),) * 4, "all"
+        for coeffs in itertools.product((-1, 1), repeat=5):
+            yield 5, tuple(coeffs) + (1,), ((-1, 1),) * 5, "all"
+        yield 6, (1, -2, 3, -1, 2, 1, 2), ((0, 2),) * 6, "all"
+    elif typ == "alldifferent":
+        for n in (5, 6):
+            yield n, (), ((0, n),) * n, "all"
+        yield 7, (), ((0, 6),) * 7, "perms"
+    elif typ == "count_eq":
+        for k in (4, 5):
+            for a in (0, 1):
+                yield k + 1, (a,), ((0, 2),) * k + ((0, k),), "all"
+    elif typ == "element_iv":
+        for k in (4, 5):
+            for l in itertools.product((0, 1, 2), repeat=k):
+                yield 2, tuple(l), ((-1, k), (-1, 3)), "all"
+    elif typ == "element_lic":
+        for k in (4, 5):
+            for c in (0, 1):
+                yield k + 1, (c,), ((0, 2),) * k + ((-1, k),), "all"
+    elif typ == "element_liv":
+        for k in (3, 4, 5):
+            yield k + 2, (), ((0, 2),) * k + ((-1, k), (0, 2)), "all"
+    elif typ == "exactly_eq":
+        for n in (4, 5, 6):
+            for a in (0, 1):
+                for c in range(0, n + 1):
+                    yield n, (a, c), ((0, 2),) * n, "all"
+    elif typ == "exactly_true":
+        for n in (7, 8, 9):
+            for c in range(0, n + 1):
+                yield n, (c,), ((0, 1),) * n, "all"
+    elif typ == "gcc":
+        for n in (4, 5):
+            for lows in itertools.product((0, 1), repeat=3):
+                for ups in itertools.product((1, 2, 3), repeat=3):
+                    if all(a <= b for a, b in zip(lows, ups)):
+                        yield n, (0,) + tuple(lows) + tuple(ups), ((0, 2),) * n, "all"
+    elif typ == "lexicographic_leq":
+        yield 8, (), ((0, 2),) * 8, "all"
+        yield 10, (), ((0, 1),) * 10, "all"
+    elif typ in ("max_eq", "min_eq", "max_leq", "min_geq"):
+        for k in (4, 5, 6):
+            yield k + 1, (), ((0, 2),) * (k + 1), "all"
+    elif typ == "relation":
+        pool = list(itertools.product((0, 1), repeat=4))
+        for tuples in itertools.combinations(pool, 2):
+            yield 4, tuple(v for t in tuples for v in t), ((0, 1),) * 4, "all"
+        pool = list(itertools.product((0, 1, 2), repeat=2))
+        for tuples in itertools.combinations(pool, 5):
+            yield 2, tuple(v for t in tuples for v in t), ((-1, 3),) * 2, "all"
+    elif typ in ("no_sub_cycle", "scc"):
+        for n in (5, 6):
+            yield n, (), ((0, n - 1),) * n, "all"
+        for n in (7, 8) + ((9,) if th else ()):
+            yield n, (), ((0, n - 1),) * n, "perms"
+    elif typ == "dummy":
+        yield 3, (), ((0, 1),) * 3, "all"
+
+
 def intervals(lo: int, hi: int) -> List[Tuple[int, int]]:
     return [(a, b) for a in range(lo, hi + 1) for b in range(a, hi + 1)]
 
